@@ -2964,11 +2964,11 @@ func (svStream) Same(goOut, modelOut string) bool {
 	if strings.HasPrefix(goOut, "err twoPositions ") && strings.HasPrefix(modelOut, "err twoPositions ") {
 		return true
 	}
-	// a tree with TWO faults in the group lists of a multiplexer (a dangling entry and a child with two
-	// positions, from two stacked mutations): the code walks the entries of a group as a Go map and
+	// a tree with TWO faults in the group lists of a multiplexer (a dangling entry, a child with two
+	// positions, a group index beyond the group count — from two stacked mutations): the code walks the entries of a group as a Go map and
 	// reports whichever fault it meets first, the model the first in list order; both refuse
 	groupFault := func(o string) bool {
-		return strings.HasPrefix(o, "err twoPositions ") || strings.HasPrefix(o, "err notFound ")
+		return strings.HasPrefix(o, "err twoPositions ") || strings.HasPrefix(o, "err notFound ") || strings.HasPrefix(o, "err groupId ")
 	}
 	if groupFault(goOut) && groupFault(modelOut) {
 		return true
